@@ -170,6 +170,13 @@ def free_path(src, fname):
             if nd[0] == "if" and not nd[3] and null_test(nd[1]) == "nonnull" and top and k == len(nl) - 1:
                 walk(nd[2], False)
                 continue
+            # hand-over to the free function of an accelerated implementation (the object is then not ours)
+            if nd[0] == "if" and not nd[3] and top and not calls and len(nd[2]) == 2 and nd[2][1] == ("return", "") and \
+                    nd[2][0][0] == "expr" and (re.fullmatch(r"hwaccel==\w+", strip_parens(squeeze(nd[1]))) or
+                                               re.fullmatch(r"\w+==hwaccel", strip_parens(squeeze(nd[1])))):
+                mm = re.fullmatch(r"(%s_\w+)\s*\((.*)\)" % re.escape(fname), nd[2][0][1].strip(), flags=re.S)
+                if mm and is_obj(mm.group(2)):
+                    continue
             if nd[0] == "expr":
                 t = nd[1].strip()
                 a = call_args(t, "assert")
@@ -1488,6 +1495,9 @@ def extract(repo):
     out += coq_calls("free_calls_key_aesni", free_path(ni, "crypto_aes_key_free_aesni"))
     out += "Definition alloc_expr_key_sw : list N :=\n  %s.\n" % coq_str(malloc_expr(aes_sw, "crypto_aes_key_expand"))
     out += coq_calls("free_calls_key_sw", free_path(aes_sw, "crypto_aes_key_free"))
+    # the same software tail as compiled WITH CPUSUPPORT_X86_AESNI (taken at run time when hwaccel is not
+    # the AES-NI value: CPU without AES-NI, failed self-test)
+    out += coq_calls("free_calls_key_sw_ni", free_path(preprocess(aes, {"CPUSUPPORT_X86_AESNI"}), "crypto_aes_key_free"))
     out += "Definition alloc_expr_ctr : list N :=\n  %s.\n" % coq_str(malloc_expr(ctr, "crypto_aesctr_alloc"))
     out += coq_calls("free_calls_ctr", free_path(ctr, "crypto_aesctr_free"))
     return {"Repo_aes.v": out, "Repo_aes_sel.v": selection(repo), "Repo_aes_arith.v": arithmetic(repo)}
